@@ -79,6 +79,8 @@ def run(c):
               "have the same root constructor (the comparison has to descend) or are identical; distinct by "
               "(alias mode, universe pair, the two type expressions)")
     c.trusted += [
+        "go2coq xnamed: translates sameTypeName, sameID and the `case *types.Named:` clause of typeIdentical (straight-line bool/string "
+        "code plus the canonical loop over the type arguments) into Gallina over the facts they read",
         "go2coq xtypes: reads ifacePair.identical (==, &&, || over the four addresses) and the call sites of identity/implements "
         "relations in ruleguard, typematch and xtypes",
         "harness/internal/gtypes: canonical serialisation of go/types types into gtype terms (go/types accessors trusted)",
@@ -93,13 +95,19 @@ def run(c):
         "constraint interfaces with type sets, generic (uninstantiated) signatures, function-local named types",
         "pointer equality `x == y` is modelled as term equality within a universe (identical_x_refl_same)",
     ]
+    c.go2coq_sources = ["types.go", "c20.go", "c10.go", "c14named.go"]
     c.build_theories()
-    c.require_theories("Types/GType.v", "Types/XIdentical.v", "Types/C14Run.v")
+    c.require_theories("Types/GType.v", "Types/XIdentical.v", "Types/C14Run.v", "Types/GoStrings.v")
     # ---- P over regenerated code: ifacePair.identical and the call sites of the relations
     if c.go2coq("xtypes", "Gen_XTypes.v"):
         if c.coq_compile(["Gen_XTypes.v"]):
             c.install_tmpl("C14/Inst_XTypes.v", "C14/C14.v")
             c.coq_compile(["Inst_XTypes.v", "C14.v"])
+    # ---- P over code TRANSLATED from xtypes.go: sameTypeName, the Named case of typeIdentical (type arguments before any answer), sameID
+    if c.go2coq("xnamed", "Gen_XNamed.v"):
+        if c.coq_compile(["Gen_XNamed.v"]):
+            c.install_tmpl("C14/Inst_XNamed.v", "C14/C14Named.v")
+            c.coq_compile(["Inst_XNamed.v", "C14Named.v"])
 
     hb = c.build_harness("c14")
     if hb is None:
